@@ -1,6 +1,7 @@
 //! C01 — members converge on the MIP-03 selected group state.
 
 use crate::oracles;
+use proptest::prelude::*;
 use crate::plangen::{SetupOpts, Weights, plan_strategy};
 use crate::props::common::{base_report, judge, run_plan};
 use crate::runner::{Args, CaseReport, Failure, Mode, RunPlan, Spec, Tier, drive};
@@ -48,7 +49,17 @@ pub fn main(args: &Args) -> i32 {
         args,
         spec,
         RunPlan { cases, workers: 16 },
-        || plan_strategy(&opts, &weights, len.clone()),
+        || {
+            // one history in twelve starts with a fork exactly as deep as the rollback window
+            (plan_strategy(&opts, &weights, len.clone()), 0u8..12, any::<bool>())
+                .prop_map(|(mut p, roll, longer)| {
+                    if roll == 0 {
+                        crate::plangen::deep_fork_prelude(&mut p, longer);
+                    }
+                    p
+                })
+                .boxed()
+        },
         exec,
     )
 }
